@@ -1767,6 +1767,155 @@ theorem parseL_reparse (strict ft : Bool) (q : MQ) (r : List MQ) (hg : ∀ x ∈
   rw [he, parseL_rest strict ft r [] qf (fun x hx => hg x (by simp [hx])) ha hs, hmq]
   simp
 
+/-! ## parse-time and edit-time canonicalisation agree -/
+
+theorem allWords_fixed : ∀ t ∈ Gen.C17Media.allWords, normalize t = t := by decide
+
+theorem dedupFrom_id (l : List LItem) : ∀ seen : List Cps, (simpleTypes l).Nodup →
+    (∀ t ∈ simpleTypes l, t ∉ seen) → dedupFrom seen l = l := by
+  induction l with
+  | nil => intro seen _ _; rfl
+  | cons a r ih =>
+    intro seen hn hs
+    cases a with
+    | comment c =>
+      simp only [dedupFrom]
+      rw [ih seen (by simpa [simpleTypes_cons_comment] using hn) (by simpa [simpleTypes_cons_comment] using hs)]
+    | query q =>
+      by_cases he : q.mediaType.isEmpty = true
+      · simp only [dedupFrom, he, if_true]
+        rw [simpleTypes_cons_query] at hn hs
+        simp only [he, if_true] at hn hs
+        rw [ih seen hn hs]
+      · have he' : q.mediaType.isEmpty = false := by simpa using he
+        rw [simpleTypes_cons_query] at hn hs
+        simp only [he', Bool.false_eq_true, if_false] at hn hs
+        have hm : q.mediaType ∉ seen := hs _ (by simp)
+        simp only [dedupFrom, he', Bool.false_eq_true, if_false, List.contains_eq_mem, hm, decide_false]
+        rw [ih (q.mediaType :: seen) (List.nodup_cons.1 hn).2 (by
+          intro t ht hts
+          rcases List.mem_cons.1 hts with h | h
+          · subst h; exact (List.nodup_cons.1 hn).1 ht
+          · exact hs t (by simp [ht]) h)]
+
+theorem view_simple_norm (l : List LItem) :
+    (view l).filter Entry.isSimple = (simpleTypes l).map (fun t => Entry.simple (normalize t)) := by
+  induction l with
+  | nil => rfl
+  | cons a r ih =>
+    cases a with
+    | comment c => simpa [view, queries_cons_comment, simpleTypes_cons_comment] using ih
+    | query q =>
+      simp only [view] at ih ⊢
+      rw [queries_cons_query, List.map_cons, List.filter_cons, simpleTypes_cons_query]
+      by_cases he : q.mediaType.isEmpty = true
+      · simp [entryOf, he, Entry.isSimple, ih]
+      · have he' : q.mediaType.isEmpty = false := by simpa using he
+        simp [entryOf, he', Entry.isSimple, ih]
+
+/-- a canonical list without list-level comments is a fixpoint of the parse-time filter -/
+theorem canon_id_of_canonV (l : List LItem) (hc : NoComments l) (hv : CanonV (view l)) : canon l = l := by
+  rw [canon_eq_spec]
+  unfold canonSpec
+  by_cases hany : l.any isLitAll = true
+  · -- the literal `all` is an `all` entry, so the list is that single query
+    obtain ⟨i, hi, hil⟩ := List.any_eq_true.1 hany
+    cases i with
+    | comment c => simp [isLitAll] at hil
+    | query q =>
+      simp only [isLitAll, Bool.and_eq_true, Bool.not_eq_true'] at hil
+      have hqall : (entryOf q).isAll = true := by
+        rw [entryOf_isAll]
+        have : q.mediaType ∈ Gen.C17Media.allWords := by simpa [isAllType] using hil.2
+        rw [allWords_fixed _ this]; exact hil.2
+      have hqv : entryOf q ∈ view l := by
+        simp only [view, List.mem_map]
+        exact ⟨q, by unfold queries; simp only [List.mem_filterMap]; exact ⟨_, hi, rfl⟩, rfl⟩
+      have hone := hv.2 _ hqv hqall
+      have hs := noComments_eq l hc
+      generalize hqs : queries l = qs at hs
+      have hv1 : qs.map entryOf = [entryOf q] := by rw [← hone, hs, view_map_query]
+      cases qs with
+      | nil => simp at hv1
+      | cons q0 r0 =>
+        cases r0 with
+        | cons _ _ => simp at hv1
+        | nil =>
+          rw [hs] at hi
+          simp at hi
+          subst hi
+          rw [hs]
+          have hl : isLitAll (.query q) = true := by simp [isLitAll, hil.1, hil.2]
+          simp [hl, List.takeWhile_cons, List.find?_cons]
+  · have hany' : l.any isLitAll = false := by simpa using hany
+    simp only [hany', Bool.false_eq_true, if_false]
+    apply dedupFrom_id l [] _ (by simp)
+    have := hv.1
+    rw [view_simple_norm, List.nodup_iff_pairwise_ne, List.pairwise_map] at this
+    rw [List.nodup_iff_pairwise_ne]
+    exact this.imp (fun h e => h (by rw [e]))
+
+theorem parseQ_no_bad_tokens : ∀ (ts : List Tok) (st : QSt) (q : MQ), parseQ st ts = .ok q →
+    ∀ t ∈ ts, t.typ ≠ .invalid ∧ t.typ ≠ .eof := by
+  intro ts
+  induction ts with
+  | nil => intro st q _ t ht; simp at ht
+  | cons a r ih =>
+    intro st q h t ht
+    rcases special_cases a with ha | ha | ha | ha | ha
+    · simp only [parseQ, ha] at h
+      rcases List.mem_cons.1 ht with rfl | ht
+      · simp [ha]
+      · exact ih _ _ h t ht
+    · simp only [parseQ, ha] at h
+      rcases List.mem_cons.1 ht with rfl | ht
+      · simp [ha]
+      · exact ih _ _ h t ht
+    · simp [parseQ, ha] at h
+    · simp [parseQ, ha] at h
+    · rw [parseQ_cons_sig st a r ha] at h
+      cases hstep : stepQ false st a with
+      | cont st' =>
+        simp only [hstep] at h
+        rcases List.mem_cons.1 ht with rfl | ht
+        · constructor <;> (intro e; simp [e, TT.special] at ha)
+        · exact ih _ _ h t ht
+      | noMatch => simp [hstep] at h
+      | missing => simp [hstep] at h
+      | unsupported => simp [hstep] at h
+
+/-- what `appendMedium` / item assignment put into a list, for a medium text without comments -/
+theorem parseQ_goodQ (ts : List Tok) (q : MQ) (h : parseQ {} ts = .ok q) (hc : ∀ t ∈ ts, t.typ ≠ .comment) :
+    GoodQ q := by
+  refine ⟨parseQ_reparse ts q h, ?_⟩
+  have ht := parseQ_toks ts {} q h
+  rw [QSt_toks_init, List.nil_append] at ht
+  intro t hmem
+  rw [ht] at hmem
+  obtain ⟨h1, h2⟩ := List.mem_filter.1 hmem
+  have h3 := parseQ_no_bad_tokens ts {} q h t h1
+  have h4 := hc t h1
+  cases hty : t.typ <;> simp_all [TT.special, notS]
+
+/-- T17.2/T17.3: after any edits, assigning the list's own text gives the same list (parse-time and edit-time
+canonicalisation agree) — lists without comments -/
+theorem setMediaText_own_toks (m : ML) (raising ft : Bool) (hi : Inv m) (hg : ∀ q ∈ queries m.seq, GoodQ q)
+    (hne : m.seq ≠ []) :
+    m.setMediaText raising ft m.toks = ({ seq := m.seq, wellformed := true }, .ret ()) := by
+  have hs := noComments_eq m.seq hi.1
+  generalize hqs : queries m.seq = qs at hs hg
+  cases qs with
+  | nil => rw [hs] at hne; simp at hne
+  | cons q r =>
+    have hp := parseL_reparse false ft q r hg
+    unfold ML.setMediaText ML.toks
+    have hne' : m.seq.isEmpty = false := by cases hm : m.seq <;> simp_all
+    simp only [hne', Bool.false_eq_true, if_false]
+    rw [hs, hp]
+    have hq : (queries ((q :: r).map LItem.query)).isEmpty = false := by rw [queries_map_query]; rfl
+    simp only [hq, Bool.false_eq_true, if_false]
+    rw [← hs, canon_id_of_canonV m.seq hi.1 hi.2]
+
 /-! ## concrete tokens for the machine-checked witnesses (code points written out: `decide` evaluates them) -/
 
 def tIdent (v : Cps) : Tok := { typ := .ident, val := v, text := v }
